@@ -122,6 +122,7 @@ pub enum ReverseStep {
     PopSpecial,
     PushSpecial(Special),
     DropLocal(usize),
+    SetLocal(usize, Cell),
     SwapRef(CellRef, Cell),
 }
 
@@ -1094,13 +1095,15 @@ impl State {
                 let idx = *i;
                 let val = self.pop_data()?;
                 let frame = self.top_frame()?;
-                if idx < frame.locals.len() {
-                    frame.locals[idx] = val;
+                let undo = if idx < frame.locals.len() {
+                    let old = std::mem::replace(&mut frame.locals[idx], val);
+                    ReverseStep::SetLocal(idx, old)
                 } else {
                     frame.locals.push_back_mut(val);
-                }
+                    ReverseStep::DropLocal(idx)
+                };
                 if self.is_recording() {
-                    self.add_reverse_step(ReverseStep::DropLocal(idx));
+                    self.add_reverse_step(undo);
                 }
                 self.next_ip();
             }
@@ -1270,6 +1273,12 @@ impl State {
             ReverseStep::DropLocal(_) => {
                 let f = self.top_frame()?;
                 f.locals.drop_last_mut();
+            }
+            ReverseStep::SetLocal(idx, val) => {
+                let f = self.top_frame()?;
+                if idx < f.locals.len() {
+                    f.locals[idx] = val;
+                }
             }
             ReverseStep::SwapRef(cref, val) => {
                 let idx = cref.index();
